@@ -17,7 +17,7 @@
    the revocation branch (a collision there would be a hash160 collision with the revocation
    key).  Side conditions key33 / xonly / u32 / elem_ok / schnorr_len are byte-length facts of
    serialized keys, uint32 template numbers, witness items (<= 520 bytes) and Schnorr signatures. *)
-From Coq Require Import List NArith ZArith Bool Lia.
+From Coq Require Import List NArith ZArith Bool Lia String.
 From LV Require Import Script.Interp Script.Parse Script.Witness Gen.GenScripts Script.Spend.
 From LV Require Import Script.Paths Script.Bundle.
 Import ListNotations.
@@ -445,6 +445,43 @@ Theorem C05_funding_spend_accepts :
      verify sigcheck pa siga = true -> verify sigcheck pb sigb = true ->
      spend_p2wsh h sigcheck ctx (spend_multi_sig greater sigb siga ws) = true).
 Proof. exact C05_funding_spend_accepts_proof. Qed.
+
+(* Witness items are positional parameters of the regenerated stack functions; this pins which
+   symbolic item each position is (names derived by the translator from the Go expressions:
+   sweep_sig = signer.SignOutputRaw(...) + sighash byte, receiver_sig / sender_sig = the
+   counterparty's HTLC signature argument, revoke_key, payment_preimage, witness_script,
+   ctrl_block ...).  A reordering of witness elements in script_utils.go changes these lists. *)
+Theorem C0405_witness_roles :
+  spend_multi_sig_params = ["sig_b"%string; "sig_a"%string; "witness_script"%string]
+  /\ sender_htlc_spend_revoke_with_key_params = ["sweep_sig"%string; "revoke_key"%string; "witness_script"%string]
+  /\ sender_htlc_spend_redeem_params = ["sweep_sig"%string; "payment_preimage"%string; "witness_script"%string]
+  /\ sender_htlc_spend_timeout_params = ["receiver_sig"%string; "sweep_sig"%string; "witness_script"%string]
+  /\ sender_htlc_script_taproot_redeem_params = ["sweep_sig"%string; "preimage"%string; "witness_script"%string; "ctrl_block"%string]
+  /\ sender_htlc_script_taproot_timeout_params = ["receiver_sig"%string; "sweep_sig"%string; "witness_script"%string; "ctrl_block_bytes"%string]
+  /\ sender_htlc_script_taproot_revoke_params = ["sweep_sig"%string]
+  /\ receiver_htlc_spend_redeem_params = ["sender_sig"%string; "sweep_sig"%string; "payment_preimage"%string; "witness_script"%string]
+  /\ receiver_htlc_spend_revoke_with_key_params = ["sweep_sig"%string; "revoke_key"%string; "witness_script"%string]
+  /\ receiver_htlc_spend_timeout_params = ["sweep_sig"%string; "witness_script"%string]
+  /\ receiver_htlc_script_taproot_redeem_params = ["sender_sig"%string; "sweep_sig"%string; "payment_preimage"%string; "witness_script"%string; "ctrl_block"%string]
+  /\ receiver_htlc_script_taproot_timeout_params = ["sweep_sig"%string; "witness_script"%string; "ctrl_block"%string]
+  /\ receiver_htlc_script_taproot_revoke_params = ["sweep_sig"%string]
+  /\ taproot_htlc_spend_revoke_params = ["sweep_sig"%string]
+  /\ taproot_htlc_spend_success_params = ["sweep_sig"%string; "witness_script"%string; "ctrl_block"%string]
+  /\ htlc_spend_success_params = ["sweep_sig"%string; "witness_script"%string]
+  /\ htlc_spend_revoke_params = ["sweep_sig"%string; "witness_script"%string]
+  /\ htlc_second_level_spend_params = ["sweep_sig"%string; "witness_script"%string]
+  /\ taproot_commit_spend_success_params = ["sweep_sig"%string; "witness_script"%string; "ctrl_block_bytes"%string]
+  /\ taproot_commit_spend_revoke_params = ["revoke_sig"%string; "witness_script"%string; "ctrl_block_bytes"%string]
+  /\ commit_spend_timeout_params = ["sweep_sig"%string; "witness_script"%string]
+  /\ commit_spend_revoke_params = ["sweep_sig"%string; "witness_script"%string]
+  /\ commit_spend_no_delay_params = ["sweep_sig"%string; "key_desc_pub_key"%string; "tweak_pub_key_with_tweak"%string]
+  /\ taproot_commit_remote_spend_params = ["sweep_sig"%string; "witness_script"%string; "ctrl_block_bytes"%string]
+  /\ commit_spend_to_remote_confirmed_params = ["sweep_sig"%string; "witness_script"%string]
+  /\ taproot_anchor_spend_params = ["sweep_sig"%string]
+  /\ taproot_anchor_spend_any_params = ["sweep_leaf_script"%string; "sweep_control_block"%string]
+  /\ commit_spend_anchor_params = ["sweep_sig"%string; "witness_script"%string]
+  /\ commit_spend_anchor_anyone_params = ["script"%string].
+Proof. exact witness_roles. Qed.
 
 (* (extra) block-based relative locktime: nSequence >= delay suffices *)
 Theorem C05_csv_blocks_sufficient : forall ctx d,
